@@ -51,8 +51,14 @@ func subst(x *X, env map[ssa.Value]*X) *X {
 		}
 	}
 	if !changed {
+		if x.Op == "phi" && x.Env == nil {
+			z := *x
+			z.Env = env
+			return &z
+		}
 		return x
 	}
+	y.Env = env
 	return &y
 }
 
@@ -444,48 +450,71 @@ func boolConst(x *X) (val, ok bool) {
 // the facts of the helper's return site when exactly one of its return sites
 // yields that truth value (and all others yield the opposite constant).
 func (c *Ctx) impliedFacts(f Fact) []Fact {
-	// err == nil where err is the error result of a helper with exactly one return site that can yield nil
+	alts := c.ImpliedAlts(f)
+	if len(alts) == 0 {
+		return nil
+	}
+	if len(alts) == 1 {
+		return alts[0]
+	}
+	// several return sites can yield the outcome: what they all have in common still holds
+	var out []Fact
+	for _, g := range alts[0] {
+		inAll := true
+		for _, other := range alts[1:] {
+			found := false
+			for _, h := range other {
+				if h.Val == g.Val && h.Cond.String() == g.Cond.String() {
+					found = true
+				}
+			}
+			if !found {
+				inAll = false
+			}
+		}
+		if inAll {
+			out = append(out, g)
+		}
+	}
+	return out
+}
+
+// ImpliedAlts: for a branch fact on a helper's result (a boolean, or the
+// nil-ness of an error), the fact sets of the helper's return sites that can
+// produce that outcome — one set per site, in the caller's terms. Empty if the
+// fact is not of that kind or some return site cannot be classified.
+func (c *Ctx) ImpliedAlts(f Fact) [][]Fact {
+	var out [][]Fact
 	if m, ok := Match(EqNil(Bind("e")), f.Cond); ok && f.Val {
 		alts := c.RetAlts(m["e"])
 		if len(alts) < 2 {
 			return nil
 		}
-		var hit *RetAlt
 		for i := range alts {
 			if definitelyNonNil(alts[i]) {
 				continue
 			}
-			if v := strip(alts[i].Val); v == nil || v.Op != "nil" || hit != nil {
+			if v := strip(alts[i].Val); v == nil || v.Op != "nil" {
 				return nil
 			}
-			hit = &alts[i]
+			out = append(out, alts[i].Facts)
 		}
-		if hit == nil {
-			return nil
-		}
-		return hit.Facts
+		return out
 	}
 	alts := c.RetAlts(f.Cond)
 	if len(alts) < 2 {
 		return nil
 	}
-	var hit *RetAlt
 	for i := range alts {
 		v, ok := boolConst(alts[i].Val)
 		if !ok {
 			return nil
 		}
 		if v == f.Val {
-			if hit != nil {
-				return nil
-			}
-			hit = &alts[i]
+			out = append(out, alts[i].Facts)
 		}
 	}
-	if hit == nil {
-		return nil
-	}
-	return hit.Facts
+	return out
 }
 
 // Leaf is one alternative a value can take, with the branch facts known on
@@ -598,7 +627,10 @@ func (c *Ctx) LeavesF(x *X, at ssa.Instruction) []Leaf {
 		if ph, isPhi := x.V.(*ssa.Phi); isPhi && x.Op == "phi" && d < 5 && len(x.Args) == len(ph.Edges) {
 			for i, a := range x.Args {
 				pred := ph.Block().Preds[i]
-				ef := append(append(append([]Fact{}, facts...), c.FactsAt(pred)...), edgeFact(c, pred, ph.Block())...)
+				ef := append([]Fact{}, facts...)
+				for _, fct := range append(c.FactsAt(pred), edgeFact(c, pred, ph.Block())...) {
+					ef = append(ef, Fact{Cond: subst(fct.Cond, x.Env), Val: fct.Val, If: fct.If})
+				}
 				rec(a, ef, d+1)
 			}
 			return
